@@ -435,7 +435,7 @@ func init() {
 				if i%4 == 2 {
 					// every main job dies once from a signal and is retried in-process
 					fc := cases[len(cases)-1]
-					fc.AutoRetry = 3
+					fc.AutoRetry = 12 // one retry per wave of first attempts
 					fc.Rules = []pgen.Rule{{Phase: "main", Attempt: 1, Fail: []string{"kill9", "kill_mrjob"}[(i/4)%2]}}
 					fc.Tweak = func(s *pgen.Spec) { s.LenChoices = []int{1, 2, 3} }
 				}
